@@ -196,7 +196,9 @@ class Env:
 
 
 class RawCutter(io.RawIOBase):
-    """unbuffered file object standing for the file being written"""
+    """file object standing for the file being written.  Like a buffered Python file, written
+    bytes reach the disk only at flush() / close() (the adversarial end of what buffering allows),
+    so a rename or a kill before the close finds the file without them."""
 
     def __init__(self, env, path, act, k):
         super().__init__()
@@ -205,7 +207,8 @@ class RawCutter(io.RawIOBase):
         self.act = act
         self.k = k
         self.fd = os.open(path, os.O_WRONLY | os.O_CREAT | os.O_TRUNC, 0o644)
-        self.buf = bytearray() if (act or '').startswith('killw:') else None
+        self.buf = bytearray()
+        self.cut_mode = (act or '').startswith('killw:')
         self.ki_pending = (act == 'kiw')
 
     def writable(self):
@@ -215,21 +218,25 @@ class RawCutter(io.RawIOBase):
         b = bytes(b)
         if self.env.dead:
             return len(b)
-        if self.buf is not None:
-            self.buf += b
-            return len(b)
-        os.write(self.fd, b)
+        self.buf += b
         if self.ki_pending and b:
             self.ki_pending = False
             self.env.events += [f'A{self.k}', 'T', 'T', 'K']
             raise KeyboardInterrupt()
         return len(b)
 
+    def flush(self):
+        if self.closed or self.env.dead or self.cut_mode:
+            return
+        if self.buf:
+            os.write(self.fd, bytes(self.buf))
+            self.buf.clear()
+
     def close(self):
         if self.closed:
             return
         try:
-            if self.buf is not None and not self.env.dead:
+            if self.cut_mode and not self.env.dead:
                 data = bytes(self.buf)
                 L = len(data)
                 cls = self.act.split(':')[1]
@@ -240,6 +247,7 @@ class RawCutter(io.RawIOBase):
                 self.env.events += [f'A{self.k}'] + ['T'] * steps + ['X']
                 self.env.dead = True
                 raise Kill()
+            self.flush()
         finally:
             try:
                 os.close(self.fd)
